@@ -313,8 +313,8 @@ func (p *Proxy) handleCONNECT(r responder.Responder, proxyReq *http.Request) err
 
 	intermediateResponder := responder.NewRawHTTPResponder(clientConn)
 
-	tlsCert, err := p.ca.GetCertForHost(proxyReq.Host)
-	if err != nil {
+	// Make sure a certificate can be had before the tunnel is granted.
+	if _, err := p.ca.GetCertForHost(proxyReq.Host); err != nil {
 		// can't use http.Error after hijacking, so we write directly
 		slog.Error("Error getting TLS certificate", "host", proxyReq.Host, "error", err)
 		intermediateResponder.WriteError("Error getting TLS certificate", http.StatusInternalServerError)
@@ -333,8 +333,13 @@ func (p *Proxy) handleCONNECT(r responder.Responder, proxyReq *http.Request) err
 	// Configure a new TLS server, pointing it at the client connection, using
 	// our certificate. This server will now pretend being the target.
 	tlsConfig := &tls.Config{
-		MinVersion:   tls.VersionTLS12,
-		Certificates: []tls.Certificate{*tlsCert},
+		MinVersion: tls.VersionTLS12,
+		// The certificate is picked when the ClientHello arrives, not when the tunnel was granted:
+		// a client that takes its time in between must not be presented one that has expired by
+		// then. (The CA hands out the host's current certificate while it is valid.)
+		GetCertificate: func(*tls.ClientHelloInfo) (*tls.Certificate, error) {
+			return p.ca.GetCertForHost(proxyReq.Host)
+		},
 	}
 	tlsConn := tls.Server(clientConn, tlsConfig)
 	defer tlsConn.Close()
